@@ -65,7 +65,12 @@ def effects_tie(rng, deep):
             if tr:
                 st['distinct_nontrivial'] += 1
             bad = effects_rt.clean(tr)
-            if bad is not None:
+            if not tr:
+                # every one of these entry points reads and writes module-level globals (`programs_read`):
+                # an empty recording means the tracer saw nothing, and an empty trace would be accepted
+                # by any `loop` -- report it instead of passing vacuously
+                st['mismatches'].append(dict(why='%s: the real call was recorded with no event on a shared location' % name))
+            elif bad is not None:
                 st['mismatches'].append(dict(why='%s: real execution read location %s before writing it' % (name, bad[1])))
             elif not effects_rt.accepts(ir[name], tr):
                 st['mismatches'].append(dict(why='%s: observed event trace (%d events) is not a trace of the extracted IR'
@@ -111,6 +116,10 @@ def batch(rng, budget, deep, replay=None):
                 n = rng.randint(max(e.min_n, 3), 8)
                 A = e.points(rng, n)
                 t = e.t(rng)
+                if not tol and name != 'Mader' and not e.slow:
+                    # put points on both sides of every discontinuity of the returned fields
+                    A = catalog.refine_points(s, e, rng, t, A)
+                    n = len(A)
                 i = rng.randrange(n)
                 extra = e.points(rng, rng.randint(2, 6))
                 B = np.concatenate([extra[:1], A[i:i + 1], extra[1:], A[i:i + 1]])     # superset pieces + duplicate
@@ -129,7 +138,7 @@ def batch(rng, budget, deep, replay=None):
                 if len(solA) != n:
                     continue       # contract violation: C05's business
                 variants = [('shuffled', s(A[perm], t), perm.index(i)), ('other-batch', s(B, t), 1),
-                            ('duplicate', s(B, t), len(B) - 1)]
+                            ('duplicate', s(B, t), len(B) - 1), ('reversed', s(A[::-1].copy(), t), n - 1 - i)]
                 if e.min_n <= 1:
                     variants.append(('alone', s(A[i:i + 1], t), 0))
                 else:
